@@ -155,6 +155,8 @@ def _modifies(I, st):
 
 def setup_engine(E):
     from vf.pyvc.loops import LoopSpec
+    from vf.props import C14 as c14
+    E.I.open_hook = c14._open_hook  # the driver contracts shared from C12 open their files through the file-system model
     shapes.use_eval_model(E)
     shapes.use_address_add_contract(E)
     E.I.loop_specs[(P + "emit", 0)] = LoopSpec("Program.emit#nodes", H + "emit_inv", havoc=_havoc, modifies=_modifies, ghost=_ghost, step=H + "emit_step",
@@ -232,6 +234,10 @@ def cases(E):
     cs += c04.live_bus_cases(E) + c04.address_contract_cases(E)
     # ... or a user-defined one: what `.map` (Bus.map) registers -- primary and mirror entries with the same window and the same ROM / RAM status
     cs += c04.bus_map_cases(E)
+    # ... selected through the file entry points: the mapping named in the call (or, if none is named, the one the Program was set to) is in force
+    # when the assembly starts -- for the flat image as for the patch (C12's driver contracts)
+    from vf.props import C12 as c12
+    cs += [c for c in c12.cases(E) if c.harness.endswith(("assemble_contract", "assemble_as_patch_contract"))]
     return cs
 
 
